@@ -166,10 +166,11 @@ func (h anaHost) GetBuiltinImport(m, v string, s herrors.Span, k pAst.IMPORT_KIN
 }
 
 type rec struct {
-	out      strings.Builder
-	triggers []string
-	singles  []string
-	single   map[string]value.Value // host-provided singleton values (VM)
+	out        strings.Builder
+	triggers   []string
+	singles    []string
+	single     map[string]value.Value // host-provided singleton values (VM)
+	singleTree map[string]ivalue.Value
 	// outLock, when set, models a host whose output sink is guarded by a lock (as the project's
 	// own TestingVmExecutor does): every write is then a synchronisation point of its own.
 	outLock interface {
@@ -187,6 +188,7 @@ func (e vmExec) LoadSingleton(id, mod string) (value.Value, bool, error) {
 	}
 	return nil, false, nil
 }
+
 // values of host-provided modules (testing.assert_eq, ...) come from the project's own testing hosts
 func (e vmExec) GetBuiltinImport(a, b string) (value.Value, bool) {
 	return hms.TestingVmExecutor{}.GetBuiltinImport(a, b)
@@ -220,7 +222,7 @@ type treeExec struct{ r *rec }
 func (e treeExec) GetBuiltinImport(a, b string) (ivalue.Value, bool) {
 	return hms.TestingTreeExecutor{}.GetBuiltinImport(a, b)
 }
-func (e treeExec) ResolveModuleCode(a string) (string, bool, error)  { return "", false, nil }
+func (e treeExec) ResolveModuleCode(a string) (string, bool, error) { return "", false, nil }
 func (e treeExec) WriteStringTo(s string) error {
 	e.r.out.WriteString(s)
 	vsched.Progress()
@@ -229,6 +231,9 @@ func (e treeExec) WriteStringTo(s string) error {
 func (e treeExec) GetUser() string { return "verif" }
 func (e treeExec) LoadSingleton(id string, t ast.Type) (*ivalue.Value, bool, *ivalue.Interrupt) {
 	e.r.singles = append(e.r.singles, id)
+	if v, ok := e.r.singleTree[id]; ok {
+		return &v, true, nil
+	}
 	return nil, false, nil
 }
 
@@ -317,6 +322,7 @@ type RunOpts struct {
 	TreeKillFn  string // interpreter: register this function of module main as the host's kill handler
 	FarDeadline bool   // the context carries a deadline far in the future
 	Singletons  map[string]value.Value
+	TreeSingles map[string]ivalue.Value      // the same values for the interpreter's host interface
 	Invocations []runtime.FunctionInvocation // host calls after construction (default: main)
 }
 
@@ -537,7 +543,7 @@ func RunTree(a Analyzed, opts RunOpts) (o Obs) {
 }
 
 func runTree(a Analyzed, opts RunOpts) (o Obs) {
-	r := &rec{}
+	r := &rec{singleTree: opts.TreeSingles}
 	ctx := newPollCtx(opts.PollBudget * 50)
 	if opts.CancelAt > 0 {
 		ctx.CancelAt = opts.CancelAt
